@@ -25,6 +25,32 @@ def modules():
     return mods
 
 
+def _is_mutable_default(d):
+    if isinstance(d, (list, dict, set, np.ndarray, np.random.RandomState)):
+        return True
+    if hasattr(np.random, "Generator") and isinstance(d, np.random.Generator):
+        return True
+    # any other object carrying instance state (a cache object, a counter, ...) - but not functions / types / modules
+    return (hasattr(d, "__dict__") and not callable(d) and not isinstance(d, type)
+            and type(d).__module__ not in ("builtins",))
+
+
+def _default_digest(d):
+    if isinstance(d, np.ndarray):
+        return digest(d)
+    if isinstance(d, np.random.RandomState):
+        st = d.get_state()
+        return digest((st[0], st[1], st[2], st[3], st[4]))
+    if hasattr(np.random, "Generator") and isinstance(d, np.random.Generator):
+        return digest(repr(d.bit_generator.state))
+    if isinstance(d, (list, dict, set)):
+        return digest(_content(d))
+    try:
+        return digest(_content(vars(d)))
+    except Exception:
+        return digest(repr(d))
+
+
 def _content(v):
     if isinstance(v, dict):
         return {repr(k): _content(x) for k, x in v.items()}
@@ -67,11 +93,11 @@ def vector():
                     vec["sig:%s.%s" % (mn, k)] = digest(sorted(str(s) for s in v.signatures))
             if inspect.isfunction(v) and v.__module__ == mn:
                 for i, d in enumerate(v.__defaults__ or ()):
-                    if isinstance(d, (list, dict, set, np.ndarray)):
-                        vec["def:%s.%s[%d]" % (mn, k, i)] = digest(_content(d) if not isinstance(d, np.ndarray) else d)
+                    if _is_mutable_default(d):
+                        vec["def:%s.%s[%d]" % (mn, k, i)] = _default_digest(d)
                 for kk, d in (v.__kwdefaults__ or {}).items():
-                    if isinstance(d, (list, dict, set, np.ndarray)):
-                        vec["def:%s.%s[%s]" % (mn, k, kk)] = digest(_content(d) if not isinstance(d, np.ndarray) else d)
+                    if _is_mutable_default(d):
+                        vec["def:%s.%s[%s]" % (mn, k, kk)] = _default_digest(d)
     st = np.random.get_state()
     vec["rng"] = digest((st[0], st[1], st[2], st[3], st[4]))
     return vec
